@@ -552,6 +552,7 @@ def run(chk, only=None):
                     vals = [gen_value(ty, rng, i if i < 3 else 3, pv, ctx) for _n, ty in e['def']]
                     jobs.append((pv, q, tn, ctx, cls, e, vals, cc))
     run_defn_jobs(chk, jobs, t, pos, kcoll)
+    run_hopping(chk, jobs, kcoll)
 
     # -------- random field-list definitions (user-defined packets)
     jobs = []
@@ -588,6 +589,56 @@ def run(chk, only=None):
     chk.assumptions += ['NBT fields are an abstract codec: the model carries the bytes pynbt produced and a splitter validated on them',
                         'repr() is exercised on every generated packet (written and read back); it has no model beyond totality',
                         'SoundEffectPacket.Pitch is generated from wire values (the float division by 63.5 is not modelled)']
+
+
+def run_hopping(chk, jobs, kcoll):
+    """A sample of the definition-driven jobs again through ONE context object whose protocol_version is reassigned between
+    packets (Connection reassigns it while negotiating): bytes, frame and id must be those of a fresh context of that version
+    (which run_defn_jobs has compared with the model)."""
+    from minecraft.networking.connection import ConnectionContext
+    rng = chk.rng
+    sample = rng.sample(jobs, min(len(jobs), 6000 if chk.tier == 'thorough' else 1200))
+    shared = ConnectionContext(protocol_version=sample[0][0]) if sample else None
+    prev = None
+    for pv, q, tn, ctx, cls, e, vals, cc in sample:
+        if not isinstance(e['id'], int):
+            continue
+        def build(c):
+            p = cls(context=c)
+            for (nm, _ty), (py, _m) in zip(e['def'], vals):
+                setattr(p, nm, py)
+            return p
+        try:
+            bi0 = write_fields(build(ctx))
+        except Exception:
+            continue                 # reported by run_defn_jobs
+        shared.protocol_version = pv
+        chk.count('reused-context', [pv, q, bi0.hex()[:300]], len(e['def']) > 0)
+        what = None
+        try:
+            p1 = build(shared)
+            bi1 = write_fields(p1)
+            body = varint(e['id']) + bi0
+            if bi1 != bi0:
+                what = 'write_fields produced %s; a fresh context of that version gives %s' % (bi1.hex()[:60], bi0.hex()[:60])
+            elif frame_of(p1) != varint(len(body)) + body:
+                what = 'frame is %s; expected id 0x%02X + fields' % (frame_of(p1).hex()[:60], e['id'])
+            else:
+                qk = cls(context=shared)
+                rb = Buf(bi0)
+                qk.read(rb)
+                if rb.pos != len(bi0):
+                    what = 'read consumed %d of %d payload bytes' % (rb.pos, len(bi0))
+                elif write_fields(qk) != bi0:
+                    what = 're-encoding the decoded packet gives different bytes'
+                elif qk.id != e['id']:
+                    what = 'packet.id is %r, registered id is 0x%02X' % (qk.id, e['id'])
+        except Exception as ex:
+            what = 'raised %s' % exn_name(ex)
+        if what:
+            chk.violation('reused-context', 'reused:%s:%s' % (pv, q), {'case': {'proto': pv, 'previous_proto_on_this_context': prev, 'class': q, 'values': repr([v[0] for v in vals])[:600]}, 'observed': what},
+                          '%s at protocol %s on a context previously at protocol %s: %s' % (q, pv, prev, what))
+        prev = pv
 
 
 def run_defn_jobs(chk, jobs, t, pos, kcoll, suite='defn'):
